@@ -104,6 +104,7 @@ class TaggedUGrammar(UGrammar[U, V, W], Generic[T, U, V, W]):
         self, constants: Dict[Type, List[Any]]
     ) -> "TaggedUGrammar[T, U, V, W]":
         tags: Dict[Tuple[Type, U], Dict[DerivableProgram, Dict[V, T]]] = {}
+        constants = {t: Constant.distinct_values(t, v) for t, v in constants.items()}
 
         for S in self.tags:
             tags[S] = {}
@@ -271,6 +272,7 @@ class ProbUGrammar(TaggedUGrammar[float, U, V, W]):
         self, constants: Dict[Type, List[Any]]
     ) -> "ProbUGrammar[U, V, W]":
         tags: Dict[Tuple[Type, U], Dict[DerivableProgram, Dict[V, float]]] = {}
+        constants = {t: Constant.distinct_values(t, v) for t, v in constants.items()}
 
         for S in self.tags:
             tags[S] = {}
